@@ -15,6 +15,16 @@ CLAIMED = {
         "Trusts Python int/Decimal comparison and the harness' reference model (gen_range.member/overall_limits).",
         "5/C01",
     ),
+    "C13": (
+        "bounded-exhaustive enumeration + hypothesis single-edit mutation against a language-membership oracle",
+        "Every string over {a,b,CR,LF} up to length 7 (quick) / 9 (thorough) x 39 width lists x 5 delimiter "
+        "settings is read and judged by a validity predicate (exact widths, lossless reconstruction) and by an "
+        "independent recogniser of the well-formed language; longer generated files with one edit at every offset "
+        "are read from streams and by path in several encodings.",
+        "Trusts io.StringIO/io.open with newline='' and the harness' recogniser (props/c13.py wellformed_records, "
+        "reproduces).",
+        "5/C13",
+    ),
 }
 
 NOT_APPLICABLE = {}
